@@ -127,7 +127,7 @@ Announce(s, c) ==
            ELSE LET R == SetToSeqAny({StoredRef(r) : r \in c.pins}) IN
                 FlatSeq([j \in DOMAIN R |-> DiscAnn(s, c.w, R[j])])
       [] c.op = "set_ref" -> IF ~ok THEN <<>> ELSE RefAnn(s, c.i, c.d)
-      [] c.op = "set_top" -> IF ~ok THEN <<>> ELSE << ATop(c.n, "I", c.i) >>
+      [] c.op \in {"set_top", "set_top_m"} -> IF ~ok THEN <<>> ELSE << ATop(c.n, "I", c.i) >>
       [] c.op = "set_top_def" ->
            IF ~ok THEN <<>>
            ELSE LET e == NumI(s) + 1 IN
